@@ -354,9 +354,9 @@ func init() {
 			"the writer and the reference decoder are validated against each other on every generated document (writer ∘ reference decoder = canon of the value)"},
 		Bound: func(tier string) string {
 			if tier == "thorough" {
-				return "levels 0,1,2,saturated, depth 2 (all shapes) x 2 variants; mocks x all single mutations; boundary-length strings in 11 string positions; one identity in every pair of item properties; every decode is followed by two unrelated decodes before the comparison; IRI forms; generic type names; every level-1 / saturated document additionally in six other legal presentations (white space and CR LF everywhere; every string and member name in \\uXXXX escapes; members in reverse order; explicit null members; @context first; instants with a numeric zone offset and a fraction)"
+				return "levels 0,1,2,saturated, depth 2 (all shapes) x 2 variants; mocks x all single mutations; boundary-length strings in 11 string positions; one identity in every pair of item properties; every decode is followed by two unrelated decodes before the comparison; IRI forms; generic type names; every level-1 / saturated document additionally in six other legal presentations (white space and CR LF everywhere; every string and member name in \\uXXXX escapes; members in reverse order; explicit null members; @context first; instants with a numeric zone offset and a fraction); families added after round 5: DESIGN.md 8.11"
 			}
-			return "levels 0,1,saturated, depth 2 (q shapes) x 2 variants; mocks x all single mutations; boundary-length strings in 11 string positions; one identity in every pair of item properties; every decode is followed by two unrelated decodes before the comparison; IRI forms; generic type names; every level-1 / saturated document additionally in six other legal presentations (white space and CR LF everywhere; every string and member name in \\uXXXX escapes; members in reverse order; explicit null members; @context first; instants with a numeric zone offset and a fraction)"
+			return "levels 0,1,saturated, depth 2 (q shapes) x 2 variants; mocks x all single mutations; boundary-length strings in 11 string positions; one identity in every pair of item properties; every decode is followed by two unrelated decodes before the comparison; IRI forms; generic type names; every level-1 / saturated document additionally in six other legal presentations (white space and CR LF everywhere; every string and member name in \\uXXXX escapes; members in reverse order; explicit null members; @context first; instants with a numeric zone offset and a fraction); families added after round 5: DESIGN.md 8.11"
 		},
 		DeadlineQuick: 6 * time.Minute, DeadlineThorough: 45 * time.Minute,
 		Run: c05Run,
